@@ -155,7 +155,8 @@ func cmdCheck(args []string) {
 			cts = append(cts, ct)
 		}
 	}
-	results := make([]*FuncResult, len(cts))
+	rps := refinePairs(s.W, s.CS, *prop)
+	results := make([]*FuncResult, len(cts)+len(rps))
 	var wg sync.WaitGroup
 	sem := make(chan struct{}, 8)
 	for i, ct := range cts {
@@ -166,6 +167,16 @@ func cmdCheck(args []string) {
 			defer wg.Done()
 			defer func() { <-sem }()
 			results[i] = VerifyFunc(s.W, s.CS, ct)
+		}()
+	}
+	for i, rp := range rps {
+		i, rp := i, rp
+		wg.Add(1)
+		sem <- struct{}{}
+		go func() {
+			defer wg.Done()
+			defer func() { <-sem }()
+			results[len(cts)+i] = VerifyRefine(s.W, s.CS, rp, *prop)
 		}()
 	}
 	wg.Wait()
